@@ -2029,7 +2029,7 @@ def _compute_event_comparison_score(
         and ref_event.name == InternalEvents.START_FLOW
     ):
         match_score = _compute_arguments_dict_matching_score(
-            event.arguments, ref_event.arguments
+            event.arguments, ref_event.arguments, internal_event_arguments=True
         )
 
         if "flow_id" not in ref_event.arguments:
@@ -2059,7 +2059,7 @@ def _compute_event_comparison_score(
             return 0.0
 
         match_score = _compute_arguments_dict_matching_score(
-            event.arguments, ref_event.arguments
+            event.arguments, ref_event.arguments, internal_event_arguments=True
         )
 
         # TODO: Generalize this with mismatch using e.g. the 'not' keyword
@@ -2151,8 +2151,13 @@ def find_all_active_event_matchers(
     return event_matchers
 
 
-def _compute_arguments_dict_matching_score(args: Any, ref_args: Any) -> float:
+def _compute_arguments_dict_matching_score(
+    args: Any, ref_args: Any, internal_event_arguments: bool = False
+) -> float:
     # TODO: Find a better way of passing arguments to distinguish the ones that count for matching
+    # internal_event_arguments: args/ref_args are the argument dictionaries of an internal (flow)
+    # event; they contain bookkeeping entries that do not count for matching. In all other
+    # dictionaries (arguments of other events, nested values) every key counts.
     score = 1.0
     if isinstance(ref_args, re.Pattern) and (
         isinstance(args, str) or isinstance(args, int) or isinstance(args, float)
@@ -2165,7 +2170,11 @@ def _compute_arguments_dict_matching_score(args: Any, ref_args: Any) -> float:
     elif not isinstance(ref_args, type(args)):
         return 0.0
     elif isinstance(ref_args, dict):
-        argument_filter = ["return_value", "activated", "source_flow_instance_uid"]
+        argument_filter = (
+            ["return_value", "activated", "source_flow_instance_uid"]
+            if internal_event_arguments
+            else []
+        )
         if len(ref_args) > len(args):
             return 0.0
         for val in ref_args.keys():
